@@ -196,6 +196,80 @@ func n11BigRoundTrip(t *testing.T, n int) (desc string) {
 	return desc
 }
 
+// n11Hostile: between two ordinary Log calls the log is handed an entry it may refuse (text that is not UTF-8 in one
+// of the places a caller controls: receiver data an integration stored, a group key built from label values, a
+// receiver name). Whatever Log answers, the following maintenance and shutdown snapshots must still be written and
+// the next start must load exactly the log as it was in memory; a refused call (error) must have changed nothing.
+var n11HostileKinds = []string{"store value not UTF-8", "store key not UTF-8", "group key not UTF-8", "receiver name not UTF-8", "integration name not UTF-8", "NUL and control bytes everywhere (valid UTF-8)", "store value of 1 MB"}
+
+func n11Hostile(t *testing.T, kind int, when int) (desc string) {
+	synctest.Test(t, func(t *testing.T) {
+		fsys := vfs.NewFS()
+		vfs.Install(fsys)
+		defer vfs.Install(nil)
+		l, err := n11New(n11Path)
+		if err != nil {
+			panic(err)
+		}
+		stopc := make(chan struct{})
+		done := make(chan struct{})
+		go func() { l.Maintenance(50*time.Second, n11Path, stopc, nil); close(done) }()
+		l.Log(c10Keys[0].r, c10Keys[0].gk, []uint64{1}, nil, nil, 0)
+		if when == 1 {
+			time.Sleep(51 * time.Second) // a good snapshot exists before the hostile call
+		}
+		bad := "id-\xff\xfe"
+		recv, gk, st := &pb.Receiver{GroupName: "r9", Integration: "webhook", Idx: 0}, "{}:{g=\"h\"}", NewStore(nil)
+		switch kind {
+		case 0:
+			st.SetStr("thread", bad)
+		case 1:
+			st.SetStr(bad, "x")
+		case 2:
+			gk = "{}:{g=\"" + bad + "\"}"
+		case 3:
+			recv.GroupName = bad
+		case 4:
+			recv.Integration = bad
+		case 5:
+			st.SetStr("a\x00b", "\x00\x01\x7f")
+			gk = "{}:{g=\"\x00\n\"}"
+			recv.GroupName = "r\x00"
+		case 6:
+			st.SetStr("blob", strings.Repeat("z", 1<<20))
+		}
+		before := n11Dump(l)
+		lerr := l.Log(recv, gk, []uint64{2}, nil, st, 0)
+		if lerr != nil && n11Dump(l) != before {
+			desc = fmt.Sprintf("Log refused the entry (%v) but the log changed", lerr)
+			return
+		}
+		if lerr == nil {
+			if _, qerr := l.Query(QReceiver(recv), QGroupKey(gk)); qerr != nil {
+				desc = fmt.Sprintf("Log accepted the entry but a query for it answers %v", qerr)
+				return
+			}
+		}
+		l.Log(c10Keys[1].r, c10Keys[1].gk, []uint64{3}, nil, nil, 0)
+		if when == 2 {
+			time.Sleep(51 * time.Second) // a maintenance snapshot after the hostile call
+		}
+		time.Sleep(time.Second)
+		close(stopc)
+		<-done
+		want := n11Dump(l)
+		l2, err := n11New(n11Path)
+		if err != nil {
+			desc = fmt.Sprintf("Log answered %v; the next start refuses the snapshot this process wrote: %v", lerr, err)
+			return
+		}
+		if got := n11Dump(l2); got != want {
+			desc = fmt.Sprintf("Log answered %v; after the shutdown snapshot the next start loads a different log (%d vs %d bytes of dump; files %v)", lerr, len(got), len(want), fsys.Names())
+		}
+	})
+	return desc
+}
+
 func TestVerifC11Nflog(t *testing.T) {
 	shard, nsh := rep.Shard()
 	if rp := rep.ReplaySpec(); rp != nil {
@@ -344,9 +418,17 @@ func TestVerifC11Nflog(t *testing.T) {
 				R.Violate("large-entry-does-not-survive-restart", fmt.Sprintf("group of %d alerts: %s", n, d), map[string]any{"rerun": true, "part": "nflog-loader", "alerts": n})
 			}
 		}
+		for k := range n11HostileKinds {
+			for when := 0; when < 3; when++ {
+				R.Executions++
+				if d := n11Hostile(t, k, when); d != "" {
+					R.Violate("refused-or-odd-entry-breaks-the-snapshots", fmt.Sprintf("entry with %s (timing %d): %s", n11HostileKinds[k], when, d), map[string]any{"rerun": true, "part": "nflog-loader", "kind": k})
+				}
+			}
+		}
 		R.Transitions = R.Executions
 		R.Exhaustive = true
-		R.Bound = fmt.Sprintf("every byte prefix of a valid %d-byte snapshot; every byte replaced by 0x00 / 0xff / its complement; entries of 1..50000 alerts through snapshot and restart", len(snap))
+		R.Bound = fmt.Sprintf("every byte prefix of a valid %d-byte snapshot; every byte replaced by 0x00 / 0xff / its complement; entries of 1..50000 alerts through snapshot and restart; %d kinds of entries Log may refuse x 3 snapshot timings", len(snap), len(n11HostileKinds))
 		R.Sample(map[string]any{"snapshot_bytes": len(snap)})
 		R.Write()
 	}
